@@ -52,7 +52,7 @@ Definition block_sample_lines : list string :=
    "* [Rest] -> @join"; "    You rest."; "@join"; "Done."; ":: End"; "Bye."].
 
 Lemma block_sample_parses :
-  match parse_real (mkPyparse (fun _ => true) (fun _ => Some (0, []))) (fun _ => true) block_sample_lines with
+  match parse_real (mkPyparse (fun _ => true) (fun _ => Some (0, [])) (fun _ => 0)) (fun _ => true) block_sample_lines with
   | POk st => map fst (passages st) = ["Start"; "End"] /\ initial st = "Start"
   | _ => False
   end.
@@ -127,6 +127,6 @@ Qed.
 (* `-> @join` written as a jump is rejected (fix 3c6eb71; before it the validator let it through and the engine
    could not follow it: StoryWfProofs.join_jump_unknown shows what such a story does at run time) *)
 Lemma join_jump_rejected :
-  parse (mkPyparse (fun _ => true) (fun _ => Some (0, []))) (fun _ => true) no_extractors
+  parse (mkPyparse (fun _ => true) (fun _ => Some (0, [])) (fun _ => 0)) (fun _ => true) no_extractors
         [":: Start"; "hi<>"; "-> @join"] = PDiag (DSyntax "call:jump-to-join" 0).
 Proof. vm_compute. reflexivity. Qed.
